@@ -701,7 +701,8 @@ class ReactionSystem(object):
         if cstr_fr_fc:
             fr_key, fc = cstr_fr_fc
             for sk, fck in fc.items():
-                result[sk] += variables[fr_key] * (variables[fck] - variables[sk])
+                feed = variables[fr_key] * (variables[fck] - variables[sk])
+                result[sk] = result[sk] + feed if sk in result else feed
         return result
 
     def _stoichs(self, attr, keys=None):
